@@ -636,6 +636,8 @@ def judge(script, ki, pre, live, off):
     for p in pre:
         for pb in p.get('blocks') or []:
             if pb.get('err'):
+                f.append(('visible-incomplete', 'at the moment of the crash the block store descriptor made block %s visible '
+                          'but the block cannot be read: %s' % (pb.get('height'), pb['err'])))
                 continue
             h = pb['height']
             nb = blocks[h - 1] if h <= len(blocks) else None
@@ -844,6 +846,24 @@ def make_reference(ctx, base, seed):
 def run_replay(ctx, replay, base):
     t = replay['trace']
     ref = make_reference(ctx, base, t.get('seed', ctx.seed))
+    if t.get('mode') == 'trace':
+        fo = ref.final_off
+        kvh = [b['height'] for b in fo.get('blocks') or [] if any(x['type'] == 'kv' for _, x in included_txs(ref.script, [b])[0])]
+        vh = [b['height'] for b in fo.get('blocks') or [] if any(x['type'] == 'admin' for _, x in included_txs(ref.script, [b])[0])]
+        trace = build_trace(ref, kvh, vh)
+        ok, at, r = validate_trace(ctx, trace, 'trace-replay')
+        ctx.cov['evaluations'] = ctx.cov['traces_validated_against_impl'] = 1
+        ctx.cov['states'] = ctx.cov['transitions'] = max(1, r.distinct)
+        ctx.sample({'replayed': t, 'accepted': ok, 'rejected_at': at})
+        if not ok and at is not None and 1 <= at <= len(trace):
+            e = trace[at - 1]
+            ctx.failures.append({'key': 'write-order:%s' % e['ev'], 'property': e['ev'].startswith(('Bs', 'gldb', 'ethdb')), 'kind': 'trace',
+                                 'detail': 'event %d (%s) of the uncrashed durable-write log is not a step of CommitPipeline.tla; preceding: %s'
+                                           % (at, e['ev'], [x['ev'] for x in trace[max(0, at - 6):at - 1]]),
+                                 'action': 'trace', 'step': at, 'engine': 'c06', 'replay': {'engine': 'c06', 'args': [], 'trace': t}})
+        elif not ok:
+            ctx.inconclusive.append('trace validation did not finish: %s' % (r.violation or r.error or 'timeout')[:300])
+        return
     res = run_job(ref, base, 0, (t['ki'], t['k'], t.get('j', 0)))
     ctx.cov['evaluations'] = 1
     ctx.cov['traces_validated_against_impl'] = 1
@@ -961,7 +981,7 @@ def run_full(ctx, quick, base):
                                                'event %d (%s, height %s) cannot happen here; preceding events: %s'
                                                % (at, e['ev'], e['h'], [x['ev'] for x in trace[max(0, at - 6):at - 1]]),
                                      'action': 'trace', 'step': at, 'engine': 'c06',
-                                     'replay': {'engine': 'c06', 'args': [], 'trace': None}})
+                                     'replay': {'engine': 'c06', 'args': [], 'trace': {'mode': 'trace', 'seed': ctx.seed}}})
         else:
             ctx.inconclusive.append('trace validation did not finish: %s' % (rT.violation or rT.error or 'timeout')[:300])
     okS, atS, rS = ts_f.result()
